@@ -415,3 +415,5 @@ def run(chk):
     chk.units = list(chk.units) + [u for u in units2 if u.endswith('argument_desc.cpp')]
     chk.rule('R4', 'usage printing: the key column is laid out for exactly the arguments that are printed', 3)
     c18.r5_visibility_arguments(chk, prog2, rule='R4')
+    # ... and wraps the descriptions at the configured line length in every layout branch (shared with C18-R13)
+    c18.r13_text_block_width(chk, prog2, rule='R4')
